@@ -390,7 +390,9 @@ func Locations(w *World, v reflect.Value) map[verifsim.FaultKey][]verifsim.WrapE
 				return
 			}
 			if fn, ok := w.Ctor[t.Name()]; ok {
-				record(verifsim.FaultKey{Fn: fn, ID: int(v.FieldByName("ID").Int())}, path, t.Name())
+				// the constructor is called at the top of this struct's method with an empty
+				// path; the last element of the location is contributed by the PARENT's method
+				record(verifsim.FaultKey{Fn: fn, ID: int(v.FieldByName("ID").Int())}, path, "")
 			}
 			for _, ms := range w.MethodSrc[t.Name()] {
 				record(verifsim.FaultKey{Fn: ms[0], ID: int(v.FieldByName("ID").Int())}, ext(path, verifsim.WrapElem{Kind: "field", Value: ms[1]}), t.Name())
